@@ -32,12 +32,19 @@ NSHARDS = 16
 
 def plan(tier, seed):
     n = 64000 if tier == "quick" else 5000000
-    return [{"kind": "random", "start": p * (n // NSHARDS), "count": n // NSHARDS} for p in range(NSHARDS)]
+    return [{"kind": "random", "start": p * (n // NSHARDS), "count": n // NSHARDS} for p in range(NSHARDS)] + \
+        [{"kind": "huge", "start": 7 * p, "count": 7} for p in range(2 if tier == "quick" else 8)]
+
+
+HUGE = {"on": False}
 
 
 def arr(rng, lo=1, hi=50, increasing=False):
     m = int(rng.integers(lo, hi + 1))
     t = int(rng.integers(0, 4))
+    if HUGE["on"] and hi >= 40 and lo < hi:
+        m = int(rng.integers(66000, 90001))       # a day of per-second values: beyond 2**16 elements
+        t = 0 if t in (1, 3) else t
     if hi >= 40 and lo < hi and rng.integers(0, 1000) == 0:
         m = int(rng.integers(1001, 3001))       # beyond the sizes at which NumPy summarises, blocks or switches algorithm
         t = 0 if t in (1, 3) else t
@@ -82,6 +89,11 @@ def run_case(ctx, kind_, idx):
     rng = ctx.rng(kind_, idx)
     cid = ctx.case_id(kind_, idx)
     h = HELPERS[int(rng.integers(0, len(HELPERS)))]
+    HUGE["on"] = kind_ == "huge"
+    if kind_ == "huge":
+        h = ["oversample_linspace", "oversample_piecewise_constant", "extend_linspace", "extend_constant", "integrals",
+             "sum_over_indices", "average", "interval_2d", "interval_methods", "append_one_sample", "round_trip",
+             "interval_closed", "interval_getset", "average"][idx % 14]
     info = {"helper": h}
     ctx.monitor("c17:" + h)
     ctx.judged()
@@ -375,7 +387,7 @@ def run_case(ctx, kind_, idx):
                         return fail("array_after_history", step=op)
                 ctx.nontriv("c17", idx)
             elif h == "average":
-                m = int(rng.integers(1, 50))
+                m = int(rng.integers(1, 50)) if not HUGE["on"] else int(rng.integers(66000, 90001))
                 x = np.cumsum(rng.uniform(0.1, 2, m))
                 y = arr(rng, m, m)
                 n = int(rng.integers(1, 17))
@@ -406,7 +418,7 @@ def run_case(ctx, kind_, idx):
                     return fail("row_means", got=gy, want=wy)
                 ctx.nontriv("c17", idx)
             else:  # round trip
-                m = int(rng.integers(2, 40))
+                m = int(rng.integers(2, 40)) if not HUGE["on"] else int(rng.integers(20000, 30001))
                 x = np.cumsum(rng.uniform(0.1, 2, m)) + rng.normal(0, 10)
                 y = rng.normal(0, 3, m)
                 n = int(rng.integers(2, 17))
